@@ -1,5 +1,5 @@
 (* Samp/PhaseSpace_proofs.v — lemmas about Samp/PhaseSpace.v *)
-From Coq Require Import Reals Lra List Lia.
+From Coq Require Import Reals Lra List Lia Bool Permutation.
 From TFV Require Import Base.RBase Kin.Boost Kin.Boost_proofs Kin.Angles Kin.Angles_proofs Samp.PhaseSpace.
 Import ListNotations.
 Open Scope R_scope.
@@ -426,4 +426,130 @@ Proof.
   split.
   - rewrite (map_ext _ (fun x => boost x (boost_vector p0)) E), sum4_map_boost, Hsum. apply boost_from_rest. assumption.
   - rewrite map_map. apply map_ext. intros x. rewrite E. unfold mass2. apply mink_boost. assumption.
+Qed.
+
+(* ------------------------------------------------------------------ cal_max_weight *)
+Lemma rmax_ge_l a b : a <= rmax a b.
+Proof. rewrite rmax_Rmax. apply Rmax_l. Qed.
+Lemma rmax_ge_r a b : b <= rmax a b.
+Proof. rewrite rmax_Rmax. apply Rmax_r. Qed.
+
+Lemma rmaxl_ge l w : In w l -> w <= rmaxl l.
+Proof.
+  induction l as [|x l IH]; cbn [rmaxl In]; [tauto|]. intros [->|H].
+  - apply rmax_ge_l.
+  - eapply Rle_trans; [apply IH, H | apply rmax_ge_r].
+Qed.
+
+Lemma rmaxl_le l c : 0 <= c -> Forall (fun w => w <= c) l -> rmaxl l <= c.
+Proof.
+  intros Hc H. induction H as [|x l Hx _ IH]; cbn [rmaxl]; [exact Hc|].
+  rewrite rmax_Rmax. apply Rmax_lub; assumption.
+Qed.
+
+(* every ladder whose relative weight is at most max(1, r) * w0 (in particular every scanned one, and the
+   optimiser's own result r * w0) has an acceptance weight <= 1/1.001 under the new bound *)
+Theorem cal_max_new_bound wt0 ws r w : 0 < wt0 -> 0 < rmaxl ws -> w <= rmax 1 r * rmaxl ws ->
+  reweight wt0 (cal_max_new wt0 ws r) w <= 1000 / 1001.
+Proof.
+  intros H0 Hw Hle. unfold reweight, cal_max_new.
+  assert (H1 : 1 <= rmax 1 r) by apply rmax_ge_l.
+  set (c := rmax 1 r * rmaxl ws) in *.
+  assert (Hc : 0 < c) by (unfold c; nra).
+  replace (w * wt0 / (wt0 * (c * (1001 / 1000)))) with (w / c * (1000 / 1001)) by (field; lra).
+  assert (w / c <= 1).
+  { apply (Rmult_le_reg_r c); [exact Hc|]. unfold Rdiv. rewrite Rmult_assoc, Rinv_l by lra. lra. }
+  lra.
+Qed.
+
+Theorem cal_max_new_scanned wt0 ws r w : 0 < wt0 -> 0 < rmaxl ws -> In w ws ->
+  reweight wt0 (cal_max_new wt0 ws r) w <= 1000 / 1001.
+Proof.
+  intros H0 Hw Hin. apply cal_max_new_bound; try assumption.
+  pose proof (rmaxl_ge ws w Hin). pose proof (rmax_ge_l 1 r). nra.
+Qed.
+
+Theorem cal_max_new_optimum wt0 ws r : 0 < wt0 -> 0 < rmaxl ws ->
+  reweight wt0 (cal_max_new wt0 ws r) (r * rmaxl ws) <= 1000 / 1001.
+Proof.
+  intros H0 Hw. apply cal_max_new_bound; try assumption.
+  pose proof (rmax_ge_r 1 r). nra.
+Qed.
+
+(* the new bound is positive and never above 1.001 x the analytic bound (when the weights under the analytic bound are <= 1:
+   weight_le_one) *)
+Theorem cal_max_new_range wt0 ws r : 0 < wt0 -> 0 < rmaxl ws -> Forall (fun w => w <= 1) ws -> r * rmaxl ws <= 1 ->
+  0 < cal_max_new wt0 ws r <= wt0 * (1001 / 1000).
+Proof.
+  intros H0 Hw Hall Hr. unfold cal_max_new.
+  assert (H1 : 1 <= rmax 1 r) by apply rmax_ge_l.
+  assert (Hm : rmaxl ws <= 1) by (apply rmaxl_le; [lra|exact Hall]).
+  assert (Hc : rmax 1 r * rmaxl ws <= 1).
+  { rewrite rmax_Rmax. unfold Rmax. destruct (Rle_dec 1 r); lra. }
+  split; [|nra]. apply Rmult_lt_0_compat; [lra|]. nra.
+Qed.
+
+(* the code before the repair: the optimiser may legitimately stop at a point of relative weight r < the weight w of
+   another ladder; that ladder is then accepted with a weight above one *)
+Theorem cal_max_old_refuted : exists wt0 r w, 0 < wt0 /\ 0 < r <= 1 /\ 0 <= w <= 1 /\ 1 < reweight wt0 (cal_max_old wt0 r) w.
+Proof. exists 1, (1/2), 1. unfold reweight, cal_max_old. repeat split; lra. Qed.
+
+(* ------------------------------------------------------------------ set_decay *)
+Theorem set_decay_new_fresh st m0 mass : set_decay_new st m0 mass = init_state m0 mass.
+Proof. reflexivity. Qed.
+
+Theorem set_decay_new_idem st m0 mass m0' mass' :
+  set_decay_new (set_decay_new st m0' mass') m0 mass = set_decay_new st m0 mass.
+Proof. reflexivity. Qed.
+
+Theorem set_decay_old_refuted : exists st m0 mass, set_decay_old st m0 mass <> init_state m0 mass.
+Proof.
+  exists (init_state 3 [1]), 2, [1]. unfold set_decay_old, init_state. cbn. intros H. inversion H.
+Qed.
+
+(* the old update is right exactly on the state __init__ prepares (empty m_mass) - as far as m_mass goes *)
+Theorem set_decay_old_masses st m0 mass : g_mass st = [] -> g_mass (set_decay_old st m0 mass) = mass.
+Proof. intros H. cbn. rewrite H. reflexivity. Qed.
+
+(* ------------------------------------------------------------------ build_phsp_chain: nested nodes *)
+Lemma same_mass_true m p : same_mass m p = true <-> snd p = m.
+Proof. unfold same_mass. destruct (Req_EM_T (snd p) m); split; intros; congruence. Qed.
+
+Theorem nest_node_spec parts m :
+  nest_node parts = Some m <-> parts <> [] /\ Forall (fun p => p = (true, m)) parts.
+Proof.
+  unfold nest_node. destruct parts as [|[b0 m0] tl].
+  - split; [discriminate | intros [H _]; congruence].
+  - destruct (andb (forallb fst ((b0, m0) :: tl)) (forallb (same_mass m0) ((b0, m0) :: tl))) eqn:E.
+    + apply andb_true_iff in E. destruct E as [E1 E2].
+      rewrite forallb_forall in E1, E2.
+      split.
+      * intros H. inversion H; subst m0. split; [discriminate|].
+        apply Forall_forall. intros [b x] Hin. specialize (E1 _ Hin). specialize (E2 _ Hin).
+        apply same_mass_true in E2. cbn in E1, E2. subst. reflexivity.
+      * intros [_ H]. inversion H as [|? ? Hh _]; subst. inversion Hh; subst. reflexivity.
+    + split; [discriminate|]. intros [_ H]. exfalso.
+      assert (andb (forallb fst ((b0, m0) :: tl)) (forallb (same_mass m0) ((b0, m0) :: tl)) = true); [|congruence].
+      inversion H as [|? ? Hh Ht]; subst. inversion Hh; subst.
+      apply andb_true_iff. split; apply forallb_forall; intros p Hin;
+        rewrite Forall_forall in H; rewrite (H p Hin); [reflexivity | apply same_mass_true; reflexivity].
+Qed.
+
+(* the decision does not depend on the order in which the decay chains are listed *)
+Theorem nest_node_perm parts parts' : Permutation.Permutation parts parts' -> nest_node parts = nest_node parts'.
+Proof.
+  intros HP.
+  assert (K : forall l l' m, Permutation.Permutation l l' -> nest_node l = Some m -> nest_node l' = Some m).
+  { intros l l' m HP' H. apply nest_node_spec in H. destruct H as [Hne Hall]. apply nest_node_spec. split.
+    - intros ->. apply Permutation.Permutation_sym, Permutation.Permutation_nil in HP'. congruence.
+    - eapply Permutation.Permutation_Forall; eassumption. }
+  destruct (nest_node parts) as [m|] eqn:E.
+  - symmetry. eapply K; eassumption.
+  - destruct (nest_node parts') as [m'|] eqn:E'; [|reflexivity].
+    apply (K parts' parts m' (Permutation.Permutation_sym HP)) in E'. congruence.
+Qed.
+
+Theorem nest_node_old_refuted : exists parts parts', Permutation.Permutation parts parts' /\ nest_node_old parts <> nest_node_old parts'.
+Proof.
+  exists [(true, 3); (false, 2)], [(false, 2); (true, 3)]. split; [apply Permutation.perm_swap|]. cbn. discriminate.
 Qed.
